@@ -33,6 +33,17 @@ class Obj(object):
         return '<%s %s>' % (self.cls, ','.join('%s=%r' % kv for kv in sorted(self.attrs.items(), key=lambda kv: kv[0]) if kv[0] in ('op', 'id', 'value', 'ctx')))
 
 
+class PyCallable(object):
+    """A callable value supplied by a rule (e.g. the object a hooked constructor returns): calling it runs fn(interp, args, kwargs)."""
+
+    def __init__(self, fn, label=''):
+        self.fn = fn
+        self.label = label
+
+    def __repr__(self):
+        return '<callable %s>' % self.label
+
+
 class ClassRef(object):
     def __init__(self, name, qual=None):
         self.name = name
@@ -172,6 +183,19 @@ class Interp(object):
             self.dpos += 1
             return d
         if isinstance(v, Obj):
+            # instances of repository classes that define their own truth value
+            if self.model is not None:
+                cqs = [v.qual] if v.qual else [c for c in self._classes_named(v.cls)]
+                for cq in cqs:
+                    if cq in self.model.classes:
+                        for special in ('__bool__', '__nonzero__', '__len__'):
+                            fi = self.model.method(cq, special)
+                            if fi is not None:
+                                r = self.call_closure(Closure(fi.node, {}, self, self_obj=v, cls=cq), [], {})
+                                if r is TOP:
+                                    return self.decide(TOP, what)
+                                return bool(r)
+                        break
             return True
         if isinstance(v, (ClassRef, Closure)):
             return True
@@ -695,6 +719,8 @@ class Interp(object):
             self.unknown.append('call ' + ftext)
             return TOP
         fv = self.ev(e.func, env)
+        if isinstance(fv, PyCallable):
+            return fv.fn(self, args, kwargs)
         if isinstance(fv, Closure):
             return self.call_closure(fv, args, kwargs)
         if isinstance(fv, ClassRef):
